@@ -1,5 +1,6 @@
 import Restli.Driver.Codec
 import Restli.Model.Envelope
+import Restli.Model.QueryParams
 /-! Driver glue for the batch-entities and query-parameters envelopes. -/
 namespace Restli.Codec
 open Restli
@@ -38,7 +39,31 @@ def opQEnc (args : List Sexp) : String :=
     | _, _ => "bad-op"
   | _ => "bad-op"
 
+/-- `qdec <module> <env> <record> <hex query>`: `UnmarshalQueryParamsDecoder`. The harness drives
+the record's `UnmarshalField` through the real `QueryParamsReader.ReadRecord` itself (the corpus
+records carry no generated `DecodeQueryParams`), so defaults are not populated there: the fields
+the query names are what is compared. -/
+def opQDec (args : List Sexp) : String :=
+  match args with
+  | [.atom _mod, envS, .atom n, .atom h] =>
+    match envOfSexp envS, ofHex h with
+    | some env, some q =>
+      (match unmarshalQuery env n q with
+      | .ok (.record fs) _ =>
+        let named := ((parseQueryParams q).getD []).map (·.1)
+        "ok " ++ canonValue (.record (fs.filter (fun e => named.contains e.1)))
+      | .ok v _ => "ok " ++ canonValue v
+      | .err (.missing ps _) => "err missing (" ++ " ".intercalate ((sortPaths ps).map toHex) ++ ")"
+      | .err (.excluded _) => "err excluded"
+      | .err _ => "err other"
+      | .panic => "panic"
+      | .fuel => "fuel"
+      | .unmodelled => "unmodelled float-syntax")
+    | _, _ => "bad-op"
+  | _ => "bad-op"
+
 -- driver-ops: Restli.Codec.envelopeOps
-def envelopeOps : List (String × (List Sexp → String)) := [("batchenc", opBatchEnc), ("qenc", opQEnc)]
+def envelopeOps : List (String × (List Sexp → String)) :=
+  [("batchenc", opBatchEnc), ("qenc", opQEnc), ("qdec", opQDec)]
 
 end Restli.Codec
